@@ -118,7 +118,9 @@ PROPS = {
             'switch forms ${x-w} ${x:-w} ... (Vacancy::of, ValueCondition::with of param/switch.rs) equal to the table of XCU '
             '2.6.2. Kani (bounded, concrete enumeration: IFS from five fixed values, inputs of <= 2 characters quick / 3 thorough) '
             'runs the real Ifs::new / non_whitespaces / classify_attr / Ranges::next against an executable reference splitter: '
-            'it covers what the Verus unit leaves uninterpreted (membership in IFS) and yields counterexamples. Level is "other" '
+            'it covers what the Verus unit leaves uninterpreted (membership in IFS) and yields counterexamples; it also runs '
+            'split_into (which cuts the field at those ranges, re-using the original vector for the last one) on three concrete '
+            'inputs. Level is "other" '
             'because of the bounded part. Verus further proves the field-list algebra behind "$@" inside a word '
             '(yash-semantics/src/expansion/phrase.rs Phrase::append, add_assign, field_count, is_zero_fields, zero_fields, '
             'one_empty_field): a phrase denotes a list of fields, appending joins the last field of the left list with the first '
@@ -187,6 +189,37 @@ PROPS = {
             'char::is_whitespace of std is used on both sides of the comparison for non-ASCII characters',
         ],
     },
+    'C14': {
+        'v_units': ['fifo'],
+        'k_units': [],
+        'level': 'other',
+        'explanation': (
+            'Object-level kernel only: the byte queue of a pipe in the simulated system (yash-env/src/system/virtual/file_body.rs). '
+            'Verus proves, for every queue content, every buffer and every payload size, that FileBody::poll_write on a FIFO appends: '
+            'the whole buffer behind what is queued if it fits; nothing (Pending, queue untouched) if it does not fit and is at most '
+            'PIPE_BUF bytes long (atomic small writes) or the pipe is full; otherwise exactly as much of its beginning as fits, returning '
+            'that count (which is what makes payloads far beyond the capacity arrive piecewise and in order); never more than PIPE_SIZE '
+            'bytes queued; EPIPE and nothing queued without a reader. FileBody::poll_read removes the first min(len(buffer), len(queue)) '
+            'bytes into the buffer in order, blocks on an empty pipe with a writer, reports end of file without one. '
+            'is_ready_for_reading / is_ready_for_writing agree with those blocking conditions; open / close only count the ends and never '
+            'touch the bytes in flight. Together: no byte is lost, duplicated or reordered by the queue itself (lemma_fifo_order). '
+            'One level up (yash-env/src/system/virtual/io.rs), the loop of OpenFileDescription::poll_write_full - the write(2) '
+            'equivalent that delivers a payload larger than the room piecewise - is proved to queue exactly '
+            'buffer[start .. *bytes_written] in order whatever the outcome (complete, pending with the running total kept, error only '
+            'when nothing was transferred), given an ASSUMED contract for one poll_write step on the description. '
+            'NOT decided: everything the property says about interleavings of writer and reader (wake-ups, the select loop, the '
+            'rw_all loops of yash-env/src/system/concurrency), the rest of OpenFileDescription (RefCell borrows), regular files, command '
+            'substitution and its trailing-newline removal, here-documents. A change there is not seen by this check.'),
+        'trusted_base': ['Verus 0.2026.09.13 + Z3', 'vstd models of VecDeque::pop_front/len and of slice::iter_mut', '/verif/tools/vextract.py'],
+        'assumptions': [
+            'assumed specs: VecDeque::extend / reserve_exact / is_empty, Vec::extend / resize_with; a shared slice yields its elements in order',
+            '`for to in buffer` over `&mut [u8]` is checked as `buffer.iter_mut()` (std definition of IntoIterator for &mut [T]; rewrite rule tokens-to-helper)',
+            'core::task::Poll, WakerSet, Weak, Cell, Waker, Inode, UnixStr, PathBuf, RefCell are same-named placeholders (only stored here); waking and registering wakers are opaque',
+            'OpenFileDescription reaches its file through Rc<RefCell<Inode>>, which is not modelled: the file behind it is a ghost view, its poll_write step is assumed to append some beginning of the buffer (what the verified FileBody::poll_write does for a FIFO), and the test "is a FIFO" is a helper call',
+            'the functions are checked under the precondition that the file is a FIFO holding at most PIPE_SIZE bytes; their Regular/Terminal/Directory/Symlink arms are unreachable under it and unverified',
+            'a match arm `A {..} | B {..} => body` is checked as two arms with the same body (rewrite rule or-arm-split)',
+        ],
+    },
     'C16': {
         'v_units': ['variable', 'varset'],
         'k_units': [],
@@ -204,15 +237,20 @@ PROPS = {
             'and, when any of them is read-only, removes NOTHING and reports one of them ("a read-only variable is never ... unset '
             'by any means"; the defect F4 fixed in 658e542 is what this contract excludes). Per variable (unit variable): '
             'assign_impl refuses and changes nothing on a read-only variable, make_read_only is monotone, export touches only its '
-            'flag. NOT decided: pop_context_impl (HashMap::retain with a capturing closure), iteration and env_c_strings '
-            '(the environment of executed programs), ContextGuard, positional parameters, and everything the interpreter does '
-            'with these operations (which scope a built-in, function or assignment uses).'),
+            'flag. pop_context_impl removes exactly the definitions made in the popped context and keeps every lower one ("locals '
+            'vanish at return while globals assigned inside persist"), its closure is verified against Vec::pop_if / HashMap::retain '
+            'contracts; iter(scope) / Iter::next yield exactly the visible variables within the reach of the scope; env_c_strings only '
+            'emits entries built from the name and current value of a visible exported variable (the formatting into a C string is '
+            'not verified). NOT decided: completeness of env_c_strings, ContextGuard, positional parameters, extend_env / init, and '
+            'everything the interpreter does with these operations (which scope a built-in, function or assignment uses).'),
         'trusted_base': ['Verus 0.2026.09.13 + Z3', '/verif/tools/vextract.py'],
         'assumptions': [
             'source::Location is an opaque placeholder type',
-            'assumed specs: mem::replace, Option::replace, Option::filter, HashMap::get_mut, <[T]>::partition_point, '
-            's.iter().rposition(p) and v.drain(i..).next_back() behind helper functions (rewrite rules iter-rposition-to-helper, '
-            'drain-from-next-back-to-helper), String obeys the hash-map key model, derived Clone/Default/PartialEq are structural',
+            'assumed specs: mem::replace, Option::replace, Option::filter, HashMap::get_mut, <[T]>::partition_point, Vec::pop_if, str::contains(char); '
+            's.iter().rposition(p), v.drain(i..).next_back(), m.retain(f), m.iter().filter_map(f).collect() and the name=value formatting tail of '
+            'env_c_strings behind helper functions with assumed contracts (rewrite rules iter-rposition-to-helper, drain-from-next-back-to-helper, '
+            'tokens-to-helper); String obeys the hash-map key model; derived Clone/Default/PartialEq are structural; C strings are not modelled '
+            '(uninterpreted name/value projections)',
             'a Vec holds at most usize::MAX elements (precondition on the context stack)',
             'the labeled block of get_or_new_impl is checked as a one-pass labeled loop (rewrite rule labeled-block-to-loop)',
         ],
